@@ -30,6 +30,11 @@ def plan(tier, seed):
                       "cfg_over": {"max_T": 3 if tier == "quick" else 5},
                       "force": {"aux_params": True, "constraint_params": i % 2 == 0, "stochastic": i % 2 == 1, "stoch_multi_dep": i % 4 == 1},
                       "simulate": i % 3 == 0, "env": {"VERIF_X64": "1"}})
+    # the transition array of a stochastic state with many dependency rows (> 127, > 255) and
+    # labels handed over as int8 / uint8: every draw must come from the row the template assigns
+    for i in range(4 if tier == "quick" else 40):
+        cases.append({"index": 3 * i, "seed": [seed, 72, i], "template": "many_categories", "cfg": "quick",
+                      "simulate": True, "init_dtype": ["int8", "uint8"][i % 2], "agents": 300, "env": {"VERIF_X64": "1"}})
     return cases
 
 
@@ -206,7 +211,10 @@ def run_case(case):
         if ref.supported(s5)[0]:
             try:
                 fsim, _ = pipeline.get_lcm_function(model, "simulate")
-                init = gen.gen_initial_states(rng, ref, 16)
+                init = gen.gen_initial_states(rng, ref, case.get("agents", 16))
+                if case.get("init_dtype"):
+                    init = {k: (np.asarray(v).astype(case["init_dtype"]) if ref.is_disc(k) else v) for k, v in init.items()}
+                    add("narrow_int_initial_state_panels")
                 vf = simcheck.vf_arrays(ref, p5, "ref", rng, refsol=s5)
                 df = simcheck.simulate_once(fsim, p5, init, vf, seed=3)
                 j = simcheck.judge_panel(ref, p5, df, init, vf)
